@@ -83,6 +83,9 @@ def make_pen(spec):
     if k == "lin":
         c, w = spec["c"], spec["w"]
         return lambda x: float(w * abs(float(x[-1]) - c))
+    if k == "slin":       # a signed (Lagrange-type) term: negative on one side
+        c, w = spec["c"], spec["w"]
+        return lambda x: float(w * (float(x[0]) - c))
     raise ValueError(k)
 
 
@@ -546,10 +549,22 @@ def apply_op(solver, rec, op, k, case_tag):
     elif o == "SetEvalMonitor":
         if op.get("defer") and not op.get("same") and not op["new"]:
             st["pending_emon"] = Monitor()                   # handed to the next Step as its `EvaluationMonitor=` keyword
+        elif op.get("prefill"):      # (C07 only, outside the machine model) a monitor that already holds records of an earlier run
+            m_ = Monitor()
+            for j in range(op["prefill"]):
+                m_([float(j)] * len(solver.population[0]), 1000.0 + j)
+            solver.SetEvaluationMonitor(m_, new=op["new"])
         else:
             solver.SetEvaluationMonitor(solver._evalmon if op.get("same") else Monitor(), new=op["new"])
     elif o == "SetStepMonitor":
-        solver.SetGenerationMonitor(Monitor(), new=op["new"])
+        if op.get("log_k"):       # (C06 only, outside the machine model) a logging monitor that scales the costs it records
+            import os as _os
+            from mystic.monitors import LoggingMonitor
+            d_ = _os.path.join(_os.path.dirname(_os.path.dirname(_os.path.abspath(__file__))), ".work", "logs")
+            _os.makedirs(d_, exist_ok=True)
+            solver.SetGenerationMonitor(LoggingMonitor(1, _os.path.join(d_, "c06_%d_%s.txt" % (_os.getpid(), tag)), k=op["log_k"]), new=op["new"])
+        else:
+            solver.SetGenerationMonitor(Monitor(), new=op["new"])
     elif o == "SetRandomInitialPoints":
         if op["lo"] is None:
             solver.SetRandomInitialPoints()
@@ -714,6 +729,10 @@ def modelled(case):
                     i = op["cons"]["i"] % len(b["lo"])
                     if not (b["lo"][i] <= op["cons"]["c"] <= b["hi"][i]):
                         return False
+        if op["op"] == "SetEvalMonitor" and op.get("prefill"):
+            return False
+        if op["op"] == "SetStepMonitor" and op.get("log_k"):
+            return False
         if op["op"] == "SetTermination":
             term = True
             if op["term"].get("kind") == "or_collapse" or '"solimp"' in json.dumps(op["term"]):
